@@ -147,9 +147,16 @@ class Program:
                         vt = self._value_type(args[0], st)
                         if vt: want = [vt]
                     c2 = [f for f in c if self.src.trait_args.get(f.impl_span, []) == want]
+                    if not c2 and not want:
+                        # defaulted `Rhs = Self`
+                        c2 = [f for f in c if self.src.trait_args.get(f.impl_span, []) in ([h], [])]
+                        if len(c2) > 1: c2 = [f for f in c2 if self.src.trait_args.get(f.impl_span, []) == [h]] or c2
                     if len(c2) == 1: return c2[0]
                     raise Unsupported(f'ambiguous trait method {callee} (args {[repr(a)[:60] for a in args]}): {len(c)} candidates {[x.name for x in c[:3]]}')
-            # reference-forwarding impls (impl Trait for &T): try with '&'+head
+            # provided (default) trait method
+            c = [f for f in self.by_short.get(method, []) if not f.impl_span and f.name.endswith(f'{trait}::{method}')]
+            c = list({f.name: f for f in c}.values())
+            if len(c) == 1: return c[0]
             return None
         # inherent method or free function
         segs = [s for s in strip_generics(callee).split('::') if s]
@@ -216,4 +223,7 @@ class Program:
         if isinstance(v, Adt): return v.ty
         if isinstance(v, VecV): return 'Vec'
         if isinstance(v, StrV): return v.ty
+        if isinstance(v, Int): return v.ty
+        if isinstance(v, Float): return 'f64'
+        if isinstance(v, Bool): return 'bool'
         return None
